@@ -1,5 +1,5 @@
 (* C16 — Resume policy governs the algorithm service's lifetime; restart only when allowed.  Per-reconcile theorems. *)
-From KV Require Import Base.Prelude Base.Cond Model.World Proofs.WorldPlan Proofs.WorldInv2 Proofs.WorldInv5 Proofs.WorldQuiet Proofs.WorldSucc Proofs.WorldRestart.
+From KV Require Import Base.Prelude Base.Cond Model.World Proofs.WorldPlan Proofs.WorldInv2 Proofs.WorldInv5 Proofs.WorldQuiet Proofs.WorldSucc Proofs.WorldRestart Proofs.WorldRpc.
 Open Scope Z_scope.
 
 (* A suggestion reconcile that sees the Suggestion Succeeded performs no algorithm call and nothing but the deletion
@@ -77,3 +77,17 @@ Theorem C16_restart_progress : forall c acts e m,
   e_completed (e_st e) = true.
 Proof. exact no_wedge_reachable_all. Qed.
 Print Assumptions C16_restart_progress.
+
+(* "A Succeeded Suggestion causes no further algorithm calls", as a statement about every step of the joint model: while the
+   suggestion controller sees the suggestion Succeeded, no action whatsoever extends the log of algorithm calls ... *)
+Theorem C16_no_rpc_while_succeeded : forall w a s,
+  c_sug w = Some s -> s_is (s_st s) SSucceeded = true -> g_rpcs (step w a) = g_rpcs w.
+Proof. exact no_rpc_while_succeeded. Qed.
+Print Assumptions C16_no_rpc_while_succeeded.
+
+(* ... and conversely every call in the log was issued by a suggestion reconcile that saw a suggestion not Succeeded. *)
+Theorem C16_rpc_needs_unsucceeded : forall w a,
+  g_rpcs (step w a) <> g_rpcs w ->
+  exists key resp dberr s, a = Begin CSug key resp dberr /\ c_sug w = Some s /\ s_is (s_st s) SSucceeded = false.
+Proof. exact rpc_needs_unsucceeded. Qed.
+Print Assumptions C16_rpc_needs_unsucceeded.
